@@ -75,6 +75,11 @@ pub enum ROp {
     EntrySelfRemove(usize),
     /// two consecutive alternative-level operations through ONE entry handle
     EntryPair(usize, EOp, EOp),
+    /// a relation handle (e, j) taken FIRST, then an alternative-level operation on its entry that does not remove or
+    /// replace that relation, then an edit through the handle taken first
+    KeptRel(usize, usize, EOp, RelEdit),
+    /// an entry handle e taken FIRST, then a field-level operation (push / insert elsewhere), then a push through the kept handle
+    KeptEntry(usize, usize, ROperand),
 }
 
 /// an alternative-level operation through an entry handle
@@ -368,6 +373,11 @@ fn ops_for(model: &[Vec<MRel>], t: Tier) -> Vec<ROp> {
         }
         ops.push(ROp::RemoveEntry(i));
         ops.push(ROp::EntrySelfRemove(i));
+        if n < MAX_ENTRIES && model[i].len() < MAX_ALTS {
+            for at in 0..=n {
+                ops.push(ROp::KeptEntry(i, at, ROperand::Simple));
+            }
+        }
     }
     for e in 0..n {
         let m = model[e].len();
@@ -386,6 +396,19 @@ fn ops_for(model: &[Vec<MRel>], t: Tier) -> Vec<ROp> {
             }
         }
         for j in 0..m {
+            for a in eops_for(m) {
+                // the entry operation must leave relation j in place
+                let touches = match a {
+                    EOp::Replace(x, _) | EOp::Remove(x) => x == j,
+                    EOp::Push(_) => false,
+                };
+                if touches || !matches!(a, EOp::Push(ROperand::Simple) | EOp::Replace(_, ROperand::Simple) | EOp::Remove(_)) {
+                    continue;
+                }
+                for ed in [RelEdit::SetVersion, RelEdit::SetArchs1, RelEdit::AddProfile, RelEdit::DropConstraint] {
+                    ops.push(ROp::KeptRel(e, j, a, ed));
+                }
+            }
             for o in rops {
                 ops.push(ROp::EReplace(e, j, *o));
             }
@@ -427,6 +450,17 @@ fn live_apply(root: &mut ll::Relations, op: &ROp) -> Result<Ret, String> {
             let mut en = get_e(root, *e)?;
             eop_live(&mut en, a)?;
             eop_live(&mut en, b)?;
+        }
+        ROp::KeptRel(e, j, a, ed) => {
+            let mut en = get_e(root, *e)?;
+            let mut kept = en.get_relation(*j).ok_or("no such relation")?;
+            eop_live(&mut en, a)?;
+            apply_edit_live(&mut kept, *ed);
+        }
+        ROp::KeptEntry(e, at, o) => {
+            let mut kept = get_e(root, *e)?;
+            root.insert(*at, mk_entry(EOperand::Parsed).0);
+            kept.push(mk_rel(*o).0);
         }
         ROp::EPush(e, o) => get_e(root, *e)?.push(mk_rel(*o).0),
         ROp::EReplace(e, j, o) => {
@@ -476,6 +510,28 @@ fn model_apply(m: &mut Vec<Vec<MRel>>, op: &ROp) -> Result<(), String> {
             let en = m.get_mut(*e).ok_or_else(oob)?;
             eop_model(en, a)?;
             eop_model(en, b)?;
+        }
+        ROp::KeptRel(e, j, a, ed) => {
+            let en = m.get_mut(*e).ok_or_else(oob)?;
+            if *j >= en.len() {
+                return Err(oob());
+            }
+            // where relation j is after the entry operation
+            let j2 = match a {
+                EOp::Remove(x) if *x < *j => *j - 1,
+                _ => *j,
+            };
+            eop_model(en, a)?;
+            apply_edit_model(en.get_mut(j2).ok_or_else(oob)?, *ed);
+        }
+        ROp::KeptEntry(e, at, o) => {
+            if *e >= m.len() {
+                return Err(oob());
+            }
+            let at2 = (*at).min(m.len());
+            m.insert(at2, mk_entry(EOperand::Parsed).1);
+            let e2 = if at2 <= *e { *e + 1 } else { *e };
+            m.get_mut(e2).ok_or_else(oob)?.push(mk_rel(*o).1);
         }
         ROp::EPush(e, o) => m.get_mut(*e).ok_or_else(oob)?.push(mk_rel(*o).1),
         ROp::EReplace(e, j, o) => *m.get_mut(*e).ok_or_else(oob)?.get_mut(*j).ok_or_else(oob)? = mk_rel(*o).1,
@@ -621,6 +677,7 @@ fn run(c: &C11Case) -> Result<(Vec<Viol>, String), String> {
             ROp::Insert(at, _) => (0..nb).map(|i| (i, if i >= (*at).min(nb) { i + 1 } else { i })).collect(),
             ROp::Replace(at, _) => (0..nb).filter(|i| i != at).map(|i| (i, i)).collect(),
             ROp::RemoveEntry(at) | ROp::EntrySelfRemove(at) => (0..nb).filter(|i| i != at).map(|i| (i, if i > *at { i - 1 } else { i })).collect(),
+            ROp::KeptRel(..) | ROp::KeptEntry(..) => vec![],
             ROp::EntryPair(e, a, b) if matches!(a, EOp::Remove(_)) || matches!(b, EOp::Remove(_)) => {
                 let dropped = after_entries.len() + 1 == nb;
                 (0..nb).filter(|i| i != e).map(|i| (i, if dropped && i > *e { i - 1 } else { i })).collect()
@@ -714,7 +771,7 @@ impl Prop for C11 {
         vec![
             "out-of-range indices are not explored (they are unwrap()s mirroring Vec panics)".into(),
             "removing an entry's only alternative may either drop the entry or leave an empty one; the model follows the live object's choice and comparisons drop empty entries".into(),
-            "handles kept across a root-level structural edit are not explored (no property statement covers them)".into(),
+            "a handle kept across another operation is exercised in two shapes: a relation handle across an alternative-level operation on its entry, an entry handle across an insertion into the field".into(),
         ]
     }
     fn n_shards(&self, _t: Tier) -> usize {
